@@ -18,7 +18,7 @@ PASS_THROUGH = (
 
 class Gate:
     """one condition an accept site is control dependent on."""
-    __slots__ = ('kind', 'what', 'operands', 'fn', 'block', 'line', 'callee', 'args', 'edge', 'const_ops', 'truth', 'negated', 'dom', 'param', 'quant')
+    __slots__ = ('kind', 'what', 'operands', 'fn', 'block', 'line', 'callee', 'args', 'edge', 'const_ops', 'truth', 'negated', 'dom', 'param', 'quant', 'chain')
 
     def __init__(self, kind, what, operands, fn, block, line, callee=None, args=None, edge=None, const_ops=None):
         self.kind = kind          # 'cmp' | 'call' | 'deleg' | 'match' | 'opaque'
@@ -31,11 +31,13 @@ class Gate:
         self.args = args
         self.edge = edge
         self.const_ops = const_ops or []
-        self.dom = False      # the edge the accept site depends on dominates it (every path to the accept passes this check)
+        self.dom = False      # the edge the accept site depends on dominates it (every path to the accept passes this check); 'loop' = the check
+                              # sits in a loop the accept site comes after, and every iteration passes it (a per-item check)
         self.truth = None     # which way the condition evaluated on the edge the accept site depends on
         self.negated = False  # an odd number of `!` between the classified operation and the switch
         self.param = None     # the switch inspects a Result / Option that is a parameter of this function (decided by the caller's argument)
         self.quant = None     # this test is the body of a quantified predicate (`any` / `all` / `find` / `position`): the quantifier's callee
+        self.chain = None     # 'or' / 'and' for the parts of a short-circuit chain held in a variable (`a || b`, `a && b`)
 
     def all_atoms(self):
         out = set()
@@ -63,6 +65,68 @@ def _array_literal_of(fd, op, depth=0):
         return _array_literal_of(fd, rv['op'], depth + 1)
     if rv['k'] in ('ref', 'rawptr'):
         return _array_literal_of(fd, {'k': 'copy', 'pl': rv['pl']}, depth + 1)
+    return None
+
+
+SEQ_PASS = ('core::slice::<impl [T]>::iter', 'std::iter::IntoIterator::into_iter', 'std::iter::Iterator::copied', 'std::iter::Iterator::cloned',
+            'std::iter::Iterator::by_ref', 'std::ops::Deref::deref', 'std::vec::Vec::<T, A>::as_slice', 'core::array::<impl [T; N]>::iter',
+            'core::array::<impl [T; N]>::as_slice', 'core::array::<impl [T; N]>::each_ref')
+
+
+def _seq_parts(eng, fd, op, depth=0):
+    """the items of a sequence operand put together from separate values, in order: an array literal `[a, b, c]`, `x.chain(y)`, `once(v)`,
+    views of those (borrows, unsizing, `iter`, `into_iter`, `copied` ...) and such a sequence returned by a local helper (instantiated at the
+    call).  One atom set per part; a part that is itself a container (`list.iter()`) stands for each of its elements.  None when the operand is
+    not of that shape (one container: the caller keeps its own reading)."""
+    if op is None or op.get('k') not in ('copy', 'move') or depth > 10:
+        return None
+    if any(q['k'] != 'deref' for q in op['pl'].get('p', [])):
+        return None
+    l = op['pl']['l']
+    if fd.is_param(l):
+        return None
+    ds = [d for d in fd.defs.get(l, []) if not d[2].get('dst', {}).get('p')]
+    if len(ds) != 1:
+        return None
+    kind, _bi, x = ds[0]
+
+    def whole(o):
+        r = _seq_parts(eng, fd, o, depth + 1)
+        return r if r is not None else [set(fd.read_op(o))]
+    if kind == 'assign':
+        rv = x['rv']
+        if rv['k'] == 'agg' and rv.get('ak') == 'array':
+            return [set(fd.read_op(o)) for o in rv['ops']]
+        if rv['k'] in ('use', 'cast') and rv['op']['k'] in ('copy', 'move'):
+            return _seq_parts(eng, fd, rv['op'], depth + 1)
+        if rv['k'] in ('ref', 'rawptr'):
+            return _seq_parts(eng, fd, {'k': 'copy', 'pl': rv['pl']}, depth + 1)
+        return None
+    if kind != 'call':
+        return None
+    cal = x.get('callee') or ''
+    args = x['args']
+    if cal == 'std::iter::Iterator::chain' and len(args) == 2:
+        return whole(args[0]) + whole(args[1])
+    if cal in ('std::iter::once', 'core::iter::once') and args:
+        return [set(fd.read_op(args[0]))]
+    if cal in SEQ_PASS and args:
+        return _seq_parts(eng, fd, args[0], depth + 1)
+    tgt = local_target(eng, x)
+    if tgt is not None and tgt != fd.body.path and depth < 6:
+        cfd = eng.fndep(tgt)
+        if cfd is None:
+            return None
+        sub = _seq_parts(eng, cfd, {'k': 'copy', 'pl': {'l': 0}}, depth + 3)
+        if sub is None:
+            return None
+        out = []
+        for part in sub:
+            inst = set()
+            for a in part:
+                inst |= fd._inst_atom(a, args)
+            out.append(inst)
+        return out
     return None
 
 
@@ -230,7 +294,7 @@ def _payload_gate(eng, fd, call, bi, line, depth):
     return g
 
 
-def _classify_value(eng, fd, pl, bi, line, depth, payload=False):
+def _classify_value(eng, fd, pl, bi, line, depth, payload=False, _def=None):
     body = fd.body
     l = pl['l']
     if depth > 12:
@@ -245,7 +309,7 @@ def _classify_value(eng, fd, pl, bi, line, depth, payload=False):
         g = Gate('match', 'param', [fd.read_place(pl)], body.path, bi, line)
         g.param = l
         return g
-    d = single_def(fd, l) if not pl.get('p') or all(p['k'] in ('deref', 'downcast') or
+    d = _def if _def is not None else single_def(fd, l) if not pl.get('p') or all(p['k'] in ('deref', 'downcast') or
                                                     (p['k'] == 'field' and p.get('adt', '').startswith(('std::result', 'std::option', 'std::ops::ControlFlow')))
                                                     for p in pl.get('p', [])) else None
     if d is None:
@@ -259,6 +323,9 @@ def _classify_value(eng, fd, pl, bi, line, depth, payload=False):
                         subs.append(Gate('deleg', tgt2, [fd.read_op(a) for a in x2['args']], body.path, bi, x2.get('line', line), callee=tgt2, args=x2['args']))
                     elif (x2.get('callee') or '') in PASS_THROUGH and x2['args'] and x2['args'][0]['k'] in ('copy', 'move') and depth < 10:
                         subs.append(_classify_value(eng, fd, x2['args'][0]['pl'], bi, x2.get('line', line), depth + 1))      # bool::from(ct_choice) ...
+                    elif depth < 10:
+                        # one operand of the chain computed by a library call (`.. || list.iter().any(|m| ..)`): classified like a value of its own
+                        subs.append(_classify_value(eng, fd, {'l': l}, bi, x2.get('line', line), depth + 1, False, _def=(kind2, dbi2, x2)))
                     else:
                         subs.append(Gate('call', x2.get('callee') or '?', [fd.read_op(a) for a in x2['args']], body.path, bi, x2.get('line', line),
                                          callee=x2.get('callee'), args=x2['args']))
@@ -280,6 +347,12 @@ def _classify_value(eng, fd, pl, bi, line, depth, payload=False):
             if subs:
                 g = Gate('multi', 'bool-of-checks', [fd.read_place(pl)], body.path, bi, line)
                 g.args = subs
+                # `a || b` assigns `true` where it stops early, `a && b` assigns `false`: what the whole says about every part
+                consts = {x2['rv']['op'].get('int') for kind2, dbi2, x2 in fd.defs.get(l, []) if kind2 == 'assign' and x2['rv']['k'] == 'use' and x2['rv']['op']['k'] == 'const'}
+                if consts == {'1'}:
+                    g.chain = 'or'
+                elif consts == {'0'}:
+                    g.chain = 'and'
                 return g
         return Gate('match', 'value', [fd.read_place(pl)], body.path, bi, line)
     kind, dbi, x = d
@@ -395,7 +468,8 @@ def _classify_value(eng, fd, pl, bi, line, depth, payload=False):
                 per, _m = fd._arg_atoms_and_muts(x['args'])
                 whole = Gate('call', callee, list(per), body.path, bi, x.get('line', line), callee=callee, args=x['args'])
                 subs = [whole]
-                elem = fd.read_op(x['args'][0])
+                # the items: one container, or a sequence put together from separate values (then the predicate is a test of each of them)
+                elems = _seq_parts(eng, fd, x['args'][0]) or [fd.read_op(x['args'][0])]
                 g0 = _classify_value(eng, cfd, {'l': 0}, bi, line, depth + 1)
                 stack = [g0]
                 while stack:
@@ -405,23 +479,24 @@ def _classify_value(eng, fd, pl, bi, line, depth, payload=False):
                         continue
                     if g2.kind in ('match', 'opaque'):
                         continue
-                    ops2 = []
-                    for o in g2.operands:
-                        oo = set()
-                        for a in o:
-                            st = strip(a)
-                            if st[0] == 'p' and st[1] == 1:
-                                k = st[2][0] if st[2] else None
-                                if k is not None and str(k).isdigit() and int(k) < len(ci[1]):
-                                    oo |= rewrap(a, fd.read_op(ci[1][int(k)]))
-                            elif st[0] == 'p':
-                                oo |= rewrap(a, elem)
-                            else:
-                                oo.add(a)
-                        ops2.append(oo)
-                    ng = Gate(g2.kind if g2.kind != 'deleg' else 'call', g2.what, ops2, g2.fn, bi, line, g2.callee, None, None, g2.const_ops)
-                    ng.quant = callee
-                    subs.append(ng)
+                    for elem in elems:
+                        ops2 = []
+                        for o in g2.operands:
+                            oo = set()
+                            for a in o:
+                                st = strip(a)
+                                if st[0] == 'p' and st[1] == 1:
+                                    k = st[2][0] if st[2] else None
+                                    if k is not None and str(k).isdigit() and int(k) < len(ci[1]):
+                                        oo |= rewrap(a, fd.read_op(ci[1][int(k)]))
+                                elif st[0] == 'p':
+                                    oo |= rewrap(a, elem)
+                                else:
+                                    oo.add(a)
+                            ops2.append(oo)
+                        ng = Gate(g2.kind if g2.kind != 'deleg' else 'call', g2.what, ops2, g2.fn, bi, line, g2.callee, None, None, g2.const_ops)
+                        ng.quant = callee
+                        subs.append(ng)
                 g = Gate('multi', 'quantified:' + short, [whole.all_atoms()], body.path, bi, line)
                 g.args = subs
                 return g
@@ -531,6 +606,13 @@ def accept_blocks(fd, want=True):
     return out
 
 
+def and_dom(a, b):
+    """dominance of a lifted gate: both the call and the check inside; 'loop' (per-item) if either is"""
+    if not a or not b:
+        return False
+    return 'loop' if 'loop' in (a, b) else True
+
+
 class GateAnalysis:
     def __init__(self, eng):
         self.eng = eng
@@ -543,6 +625,12 @@ class GateAnalysis:
             g = classify_switch(self.eng, fd, a)
             g.edge = (a, s)
             g.dom = body.dominates(s, bi) and all(p == a or body.dominates(s, p) for p in body.pred[s])
+            if not g.dom:
+                for h, blocks in body.natural_loops():
+                    if a in blocks and s in blocks and bi not in blocks and body.dominates(h, bi):
+                        latches = [x_ for x_ in blocks if h in body.succ[x_]]
+                        if latches and all(s == x_ or body.dominates(s, x_) for x_ in latches):
+                            g.dom = 'loop'
             t = body.blocks[a]['term']
             zero_t = [b for v, b in t['targets'] if v == '0']
             if zero_t and len(t['targets']) == 1 and zero_t[0] != t['otherwise']:
@@ -580,7 +668,13 @@ class GateAnalysis:
         out = []
         for s in g.args:
             s.edge = g.edge
-            s.truth = g.truth
+            # (a part with a `!` of its own: the operation it classifies evaluated the other way)
+            pt = g.truth
+            if g.chain == 'or' and pt is True:
+                pt = None         # one part of `a || b` is true: which one is not known (and the later ones may not have been evaluated)
+            elif g.chain == 'and' and pt is False:
+                pt = None
+            s.truth = pt if (not s.negated or pt is None) else (not pt)
             s.dom = g.dom
             out.extend(self._flatten(s))
         return out
@@ -613,18 +707,18 @@ class GateAnalysis:
                                         oo |= fd._inst_atom(a, args)
                                     ops3.append(oo)
                                 n3 = Gate(g3.kind, g3.what, ops3, g3.fn, g3.block, g3.line, g3.callee, None, g3.edge, g3.const_ops)
-                                n3.truth, n3.dom, n3.quant = g3.truth, g3.dom and dom, g3.quant
+                                n3.truth, n3.dom, n3.quant = g3.truth, and_dom(g3.dom, dom), g3.quant
                                 la.append(n3)
                             alts.append(la)
                         extra = [e + a for e in extra for a in alts][:64]
                         continue
                 if g.kind != 'fnparam' and g.param is not None and g.param - 1 < len(args) and args[g.param - 1]['k'] in ('copy', 'move') and depth < 6:
                     g2 = _classify_value(self.eng, fd, args[g.param - 1]['pl'], g.block, g.line, 0)
+                    if g2.truth is None and g.truth is not None:
+                        g2.truth = (not g.truth) if g2.negated else g.truth
                     subs = []
                     for s2 in self._flatten(g2):
-                        s2.dom = g.dom and dom
-                        if s2.truth is None and g.truth is not None:
-                            s2.truth = (not g.truth) if s2.negated else g.truth
+                        s2.dom = and_dom(g.dom, dom)
                         subs.append(s2)
                     for s2 in subs:
                         if s2.kind == 'deleg':
@@ -638,11 +732,11 @@ class GateAnalysis:
                     pks = {strip(a)[1] for o in g.operands for a in o if strip(a)[0] == 'p'}
                     if len(pks) == 1:
                         k = next(iter(pks))
-                        lit = _array_literal_of(fd, args[k - 1]) if 0 < k <= len(args) else None
+                        lit = _seq_parts(self.eng, fd, args[k - 1]) if 0 < k <= len(args) else None
                         if lit:
                             for eo in lit:
-                                ng = Gate(g.kind, g.what, [set(fd.read_op(eo))], g.fn, g.block, g.line, g.callee, None, g.edge, g.const_ops)
-                                ng.truth, ng.dom, ng.param, ng.quant = g.truth, g.dom and dom, None, g.quant
+                                ng = Gate(g.kind, g.what, [set(eo)], g.fn, g.block, g.line, g.callee, None, g.edge, g.const_ops)
+                                ng.truth, ng.dom, ng.param, ng.quant = g.truth, and_dom(g.dom, dom), None, g.quant
                                 lifted.append(ng)
                             continue
                 ops = []
@@ -653,7 +747,7 @@ class GateAnalysis:
                     ops.append(oo)
                 ng = Gate(g.kind, g.what, ops, g.fn, g.block, g.line, g.callee, None, g.edge, g.const_ops)
                 ng.truth = g.truth
-                ng.dom = g.dom and dom
+                ng.dom = and_dom(g.dom, dom)
                 ng.param = None
                 ng.quant = g.quant
                 lifted.append(ng)
